@@ -147,12 +147,8 @@ Proof.
       inversion H; subst; apply SRSame; reflexivity.
   - destruct (s_closed st); [inversion H; subst; apply SRSame; reflexivity|].
     destruct (st_try_remove _ _ _) as [sto prev]. inversion H; subst; sproj. apply SRSame. reflexivity.
-  - destruct (s_closed st); [inversion H; subst; apply SRSame; reflexivity|].
-    sproj. destruct (buf_send _ _ _) as [st2|] eqn:E.
-    + inversion H; subst; sproj. apply SRSame. apply buf_send_frame in E. sproj. tauto.
-    + inversion H; subst; sproj. apply SRSame. reflexivity.
-  - destruct (s_closed st); [inversion H; subst; apply SRSame; reflexivity|].
-    destruct (s_pc st); inversion H; subst; sproj; apply SRSame; reflexivity.
+  - destruct (s_closed st); inversion H; subst; sproj; apply SRSame; reflexivity.
+  - destruct (s_closed st); inversion H; subst; sproj; apply SRSame; reflexivity.
   - destruct (s_closed st); inversion H; subst; sproj; apply SRSame; reflexivity.
   - inversion H; subst. apply SRSame. reflexivity.
   - inversion H; subst; sproj. eapply SRSetMax. reflexivity.
@@ -176,6 +172,10 @@ Proof.
   - destruct (buf_send c st (IDelete k c0)) as [st1|] eqn:E.
     + inversion H; subst; sproj. apply buf_send_frame in E. tauto.
     + destruct (s_pc st); try discriminate; inversion H; subst; sproj; reflexivity.
+  - sproj. destruct (buf_send _ _ _) as [st2|] eqn:E.
+    + inversion H; subst; sproj. apply buf_send_frame in E. sproj. tauto.
+    + inversion H; subst; sproj. reflexivity.
+  - destruct (s_pc st); inversion H; subst; sproj; reflexivity.
   - destruct (s_closed st); inversion H; subst; sproj; reflexivity.
   - destruct (mem_N id (s_done st)); [|discriminate]. inversion H; subst; sproj; reflexivity.
   - destruct (mem_N id (s_done st)); [|discriminate]. destruct closing; inversion H; subst; sproj; reflexivity.
